@@ -333,6 +333,10 @@ def _consumers(ctx, violations):
     systemSnapSupportsReExec(Version=a, snap's version=b) must be true iff a <= b (and false on error);
     a pending snapd refresh from a to b is an exclusive 'downgrade' iff a > b (error => the check fails)."""
     out = {"evaluations": 0}
+    if os.environ.get("VERIF_SKIP_OVERLAY"):        # development aid for mutation demos that do not touch the consumers
+        ctx.log("WARNING: consumer overlay drivers skipped (VERIF_SKIP_OVERLAY set) -- not a complete run")
+        out["skipped"] = "VERIF_SKIP_OVERLAY"
+        return out
     d = ctx.subdir("cons")
     spec = os.path.join(d, "pairs.json")
     with open(spec, "w") as f:
